@@ -28,7 +28,7 @@ pub fn def() -> PropertyDef {
         extra: no_extra,
         replay_custom: no_custom,
         assumptions: &[
-            "GV-eligible frames = voiced frames of labels that match none of the voice's GV_OFF_CONTEXT patterns (evaluated with the harness's own glob matcher on the label text); GV means from the public Models::model_stream(i).gv",
+            "GV-eligible frames = voiced frames of labels that match none of the voice's GV_OFF_CONTEXT patterns (evaluated with the harness's own glob matcher on the label text); GV means computed as the GV-weighted sum of the per-voice GV Gaussians (independent of Models::gv)",
             "with >= 100 eligible frames: variance / (weight x GV mean) in [0.8,1.2] per coefficient (measured [0.947,1.051]) and variance non-decreasing in the weight (relative slack 1e-9)",
             "no eligible frame: the hook trajectory equals the public MlpgAdjust solution with gv: None, bitwise; the non-GV stream is bitwise unaffected by its GV weight",
         ],
@@ -38,9 +38,44 @@ pub fn def() -> PropertyDef {
 #[derive(Debug, Clone, Serialize)]
 pub struct Case {
     pub voice: VoiceChoice,
+    /// Some(f): the engine is a SET of `voice` and a copy of the bundled voice whose GV means are
+    /// scaled by f, with the given (different) parameter and GV interpolation weights
+    pub gv_partner: Option<(f64, Vec<f64>, Vec<f64>)>,
     pub source: String,
     pub labels: Vec<String>,
     pub weights: Vec<f64>,
+}
+
+fn gv_partner_voice(f: f64) -> Result<std::sync::Arc<jbonsai::model::Voice>, Failure> {
+    use std::collections::HashMap;
+    use std::sync::{Arc, Mutex, OnceLock};
+    static CACHE: OnceLock<Mutex<HashMap<u64, Arc<jbonsai::model::Voice>>>> = OnceLock::new();
+    let m = CACHE.get_or_init(Default::default);
+    if let Some(v) = m.lock().unwrap().get(&f.to_bits()) {
+        return Ok(v.clone());
+    }
+    let tmp = crate::voice::TempVoice(crate::voice::write_temp(&crate::voice::gv_scaled_bundled(f), "c12"));
+    let v = jbonsai::model::load_htsvoice_file(&tmp.0).map_err(|e| Failure::new("load-valid-voice", e.to_string()))?;
+    let v = Arc::new(v);
+    m.lock().unwrap().insert(f.to_bits(), v.clone());
+    Ok(v)
+}
+
+fn c12_engine(c: &Case) -> Result<jbonsai::Engine, Failure> {
+    let Some((f, wp, wg)) = &c.gv_partner else { return Ok(build_engine(&c.voice)?.0) };
+    let first = match &c.voice {
+        VoiceChoice::Perturbed(k) => crate::engine_case::perturbed_voice(*k)?,
+        _ => crate::engine_case::bundled_voice_arc()?,
+    };
+    let mut e = crate::engine_case::engine_from_voices(vec![first, gv_partner_voice(*f)?])?;
+    let iw = e.condition.get_interporation_weight_mut();
+    let bad = |e: jbonsai::model::interporation_weight::WeightError| Failure::new("valid-weights-rejected", e.to_string());
+    iw.set_duration(wp).map_err(bad)?;
+    for i in 0..3 {
+        iw.set_parameter(i, wp).map_err(bad)?;
+        iw.set_gv(i, wg).map_err(bad)?;
+    }
+    Ok(e)
 }
 
 fn gen_traj(e: &jbonsai::Engine, lines: &[String]) -> Result<Trajectories, Failure> {
@@ -65,7 +100,7 @@ impl Prop for GlobalVariance {
         "gv-variance".into()
     }
     fn rule(&self) -> String {
-        "bundled voice or one of its PDF-perturbed copies; 10..60 corpus labels (consecutive window or shuffled lines); three sorted GV weights in [0.25,2] applied to both GV streams (spectrum, log-F0); variance of every coefficient over the eligible frames vs weight x GV mean, monotone in the weight; the low-pass stream (no GV) bitwise unaffected by its GV weight. Non-trivial: >= 100 eligible frames in both streams".into()
+        "bundled voice or one of its PDF-perturbed copies - in 30 % of the cases combined with a copy whose GV means are scaled by 0.5..3, using different parameter and GV interpolation weights -; 10..60 corpus labels (consecutive window or shuffled lines); three sorted GV weights in [0.25,2] applied to both GV streams (spectrum, log-F0); variance of every coefficient over the eligible frames vs weight x GV mean, monotone in the weight; the low-pass stream (no GV) bitwise unaffected by its GV weight. Non-trivial: >= 100 eligible frames in both streams".into()
     }
     fn tape_len(&self, _: Tier) -> usize {
         80
@@ -90,10 +125,18 @@ impl Prop for GlobalVariance {
             })
             .collect();
         weights.sort_by(|a, b| a.partial_cmp(b).unwrap());
-        Case { voice, source: source.into(), labels, weights }
+        let gv_partner = if t.chance(0.3) {
+            let f = *t.pick(&[2.0, 0.5, 1.5, 3.0]);
+            let a = t.dyadic(0, 64, 64);
+            let b = t.dyadic(0, 64, 64);
+            Some((f, vec![a, 1.0 - a], vec![b, 1.0 - b]))
+        } else {
+            None
+        };
+        Case { voice, gv_partner, source: source.into(), labels, weights }
     }
     fn check(&self, c: &Case) -> Result<Report, Failure> {
-        let (engine, _info) = build_engine(&c.voice)?;
+        let engine = c12_engine(c)?;
         let lines = c.labels.as_slice();
         let labels = match parse_lines(&c.labels) {
             Ok(l) => l,
@@ -109,8 +152,22 @@ impl Prop for GlobalVariance {
             frame_label_ok.extend(std::iter::repeat(ok).take(frames));
         }
         let models = Models::new(&labels, &engine.voices, engine.condition.get_interporation_weight());
+        // GV mean per coefficient, computed independently of Models::gv: the weighted sum (GV
+        // weights of that stream) of the per-voice GV Gaussians selected by the first label
+        let _ = &models;
         let gv_means: Vec<Vec<f64>> = (0..2)
-            .map(|i| models.model_stream(i).gv.map(|g| g.0.iter().map(|m| m.0).collect()).unwrap_or_default())
+            .map(|i| {
+                let w = engine.condition.get_interporation_weight().get_gv(i).to_vec();
+                let per: Vec<Vec<f64>> = engine
+                    .voices
+                    .iter()
+                    .map(|v| v.stream_models[i].gv_model.as_ref().map(|g| g.get_parameter(2, &labels[0]).parameters.iter().map(|m| m.0).collect()).unwrap_or_default())
+                    .collect();
+                if per.iter().any(|p| p.is_empty()) {
+                    return vec![];
+                }
+                (0..per[0].len()).map(|k| per.iter().zip(&w).map(|(p, w)| w * p[k]).sum()).collect()
+            })
             .collect();
         ensure!(!gv_means[0].is_empty() && !gv_means[1].is_empty(), "gv-missing", "bundled voice must have GV for streams 0 and 1");
         let mut prev: Option<(f64, Vec<Vec<f64>>)> = None;
@@ -174,6 +231,7 @@ impl Prop for GlobalVariance {
         }
         rep.nontrivial = eligible_counts.0 >= 100 && eligible_counts.1 >= 100;
         rep.class(c.voice.class());
+        rep.class_if(c.gv_partner.is_some(), "voice-set-with-different-gv");
         rep.class(format!("source:{}", c.source));
         rep.class_if(eligible_counts.0 >= 100, "spectrum>=100-eligible");
         rep.class_if(eligible_counts.1 >= 100, "lf0>=100-eligible");
